@@ -306,6 +306,12 @@ func (g *valueGen) fill(n *Node, v reflect.Value, label string) {
 			fl := label + "." + f.GoName
 			switch {
 			case f.Embedded && f.EmbPtr:
+				if g.free() && rapid.IntRange(0, 5).Draw(g.t, fl+".nilemb") == 0 {
+					g.Labels["nil_embedded_pointer"] = true
+					fv.Set(reflect.Zero(f.N.T))
+
+					continue
+				}
 				p := reflect.New(f.N.Elem.T)
 				g.fill(f.N.Elem, p.Elem(), fl)
 				fv.Set(p)
